@@ -15,8 +15,8 @@ META = {
     "title": "z-scores = adjusted standardized residuals; p = 2(1-Phi(|z|))",
     "bounds": {
         "quick": {"cell level": "CAT x CAT 2x2, 2x3, 3x3, 1x3 (degenerate), with 0-1 sum subtotal per dimension",
-                  "respondent level": "CAT x MR, MR x CAT, MR x MR (2 items), per-cell bases", "data": "all weighted counts / pattern masses >= 0"},
-        "thorough": {"cell level": "up to 3x4 with two subtotals", "respondent level": "CAT(3) x MR(2), MR(3) x CAT(2)", "data": "as quick"},
+                  "respondent level": "CAT x MR, MR x CAT (2 items), per-cell bases", "wire-cell level": "MR(2) x MR(2)", "data": "all weighted counts / pattern masses >= 0"},
+        "thorough": {"cell level": "up to 3x4 with two subtotals", "respondent level": "CAT(3) x MR(2)", "wire-cell level": "MR(3) x MR(2), CAT(2) x MR(3), MR(2) x CAT(3) and CAT(3) x MR(2) with a subtotal", "data": "as quick"},
     },
     "assumptions": ["weighted counts >= 0; head counts fixed (z-scores do not mention them)",
                     "Phi is an uninterpreted function with the contract 0<=Phi<=1, Phi(x)>=1/2 for x>=0, equal arguments give equal values"],
@@ -121,6 +121,13 @@ def pattern(eng, rows, cols):
     return z_obs(eng, part)
 
 
+def cells(eng, rows, cols):
+    """array pairings over free wire cells (each weighted wire cell its own unknown): per-cell bases"""
+    w = CellWorld(eng, [rows, cols])
+    part = Cube(w.response()).partitions[0]
+    return z_obs(eng, part)
+
+
 S = C.subtotal
 
 
@@ -141,8 +148,13 @@ def specs(tier):
     add("3x2 + col subtotal spanning all + row subtotal", "cat_x_cat", dict(nrows=3, col_ins=[S("all", [1, 2])], row_ins=[S("r13", [1, 3], anchor=1)]))
     add("cat x mr", "pattern", dict(rows=V("cat", "a", 2, (1,)), cols=V("mr", "b", 2)))
     add("mr x cat", "pattern", dict(rows=V("mr", "a", 2), cols=V("cat", "b", 2, (0,))))
+    add("mr x mr (wire cells)", "cells", dict(rows=("mr", "a", 2, {}), cols=("mr", "b", 2, {})))
     if tier == "thorough":
         add("3x4 two subtotals", "cat_x_cat", dict(nrows=3, ncols=4, row_ins=[S("r12", [1, 2])], col_ins=[S("c34", [3, 4], anchor="top")]))
-        add("mr x mr", "pattern", dict(rows=V("mr", "a", 2), cols=V("mr", "b", 2)), max_paths=400)
+        # MR x MR over answer-pattern masses (81 patterns) leaves the z-score VCs undecided; over free wire cells they are decided
+        add("mr3 x mr2 (wire cells)", "cells", dict(rows=("mr", "a", 3, {}), cols=("mr", "b", 2, {})), max_paths=400)
+        add("mr2 x cat3 + column subtotal (wire cells)", "cells", dict(rows=("mr", "a", 2, {}), cols=("cat", "b", 3, {"missing_at": (0,), "insertions": [S("c23", [2, 3])]})), max_paths=400)
+        add("cat3 + row subtotal x mr2 (wire cells)", "cells", dict(rows=("cat", "a", 3, {"missing_at": (2,), "insertions": [S("r13", [1, 3], anchor="top")]}), cols=("mr", "b", 2, {})), max_paths=400)
+        add("cat x mr3 (wire cells)", "cells", dict(rows=("cat", "a", 2, {"missing_at": (1,)}), cols=("mr", "b", 3, {})), max_paths=400)
         add("cat3 x mr", "pattern", dict(rows=V("cat", "a", 3, (1,)), cols=V("mr", "b", 2)), max_paths=400)
     return out
